@@ -688,12 +688,13 @@ Section ServerInv.
   Lemma TInv_filter p l nt : TInv l nt -> TInv (filter p l) nt.
   Proof.
     intros (H1 & H2). split.
-    - intros x Hx. apply H1. apply filter_In in Hx. tauto.
+    - intros x Hx. apply H1. apply filter_In in Hx. exact (proj1 Hx).
     - apply NoDup_map_filter. exact H2.
   Qed.
 
   Lemma TInv_mono l nt nt' : TInv l nt -> (nt <= nt')%N -> TInv l nt'.
   Proof.
+    clear w_put w_get sha1 id_secure cfg.
     intros (H1 & H2) Hle. split; [|exact H2].
     intros x Hx. destruct (H1 x Hx) as (n & Hn & Hlt). exists n. split; [exact Hn|lia].
   Qed.
@@ -701,6 +702,7 @@ Section ServerInv.
   Lemma TInv_add l nt k t q n :
     TInv l nt -> uvarint_decode t = Some n -> (nt <= n)%N -> TInv (l ++ [mkTxn k t q]) (N.succ n).
   Proof.
+    clear w_put w_get sha1 id_secure cfg.
     intros (H1 & H2) Hd Hle. split.
     - intros x Hx. apply in_app_or in Hx. destruct Hx as [Hx|[<-|[]]].
       + destruct (H1 x Hx) as (n' & Hn' & Hlt). exists n'. split; [exact Hn'|lia].
@@ -782,7 +784,7 @@ Section ServerInv.
   Proof.
     constructor; cbn [init_state Server.s_nodes Server.s_index bucket filter map length].
     - intros n [].
-    - intros i. lia.
+    - intros i. apply Nat.le_0_l.
     - constructor.
     - intros n [].
     - reflexivity.
